@@ -68,6 +68,21 @@ impl CKBProtocolHandler for SyncProtocol {
         match message {
             packed::SyncMessageUnionReader::SendBlock(reader) => {
                 let new_block = reader.to_entity().block();
+                // The extension is an extra field, which the check of the message skips.
+                if new_block.count_extra_fields() > 0
+                    && packed::BlockV1Reader::from_compatible_slice(new_block.as_slice()).is_err()
+                {
+                    warn!(
+                        "SyncProtocol.received a block with a malformed extension from Peer({})",
+                        peer
+                    );
+                    nc.ban_peer(
+                        peer,
+                        BAD_MESSAGE_BAN_TIME,
+                        String::from("send us a malformed message"),
+                    );
+                    return;
+                }
                 let mut matched_blocks = self.peers.matched_blocks().write().expect("poisoned");
                 self.peers.add_block(&mut matched_blocks, new_block);
 
